@@ -138,7 +138,10 @@ def case_random(ctx, rng, wd, l=None):
     cellkind = "ortho" if nlkind == "voronoi" else str(rng.choice(["ortho", "ortho", "tri"]))
     T = int(rng.choice([1, 2, 3]))
     N = int(rng.integers(12, 36 if l > 8 else 50))
-    cell = gc.make_cell(rng, 3, cellkind, lmin=4.5, lmax=7.5)
+    bigsys = N >= 33 and l <= 8 and T == 1 and nlkind in ("nnearest", "own")
+    if bigsys:
+        N = int(rng.choice([130, 260, 420]))          # beyond the usual size (block-wise evaluation boundaries)
+    cell = gc.make_cell(rng, 3, cellkind, lmin=4.5 * (N / 40.0) ** (1 / 3) if bigsys else 4.5, lmax=7.5 * (N / 40.0) ** (1 / 3) if bigsys else 7.5)
     f0 = gc.make_frac(rng, 3, N, str(rng.choice(["gas", "lattice", "hardcore"])))
     N = len(f0)
     uneven = T == 3 and rng.random() < 0.4
@@ -201,6 +204,18 @@ def case_random(ctx, rng, wd, l=None):
     info = lambda: {"l": l, "nl": nlkind, "N": N, "T": T, "cell": cellkind, "H": Hs, "ppp": ppp, "weights": bool(fw),  # noqa: E731
                     "positions": [s.positions for s in snaps.snapshots] if N <= 14 else "omitted", "lists": lists if N <= 14 else "omitted"}
     key = f"boo_3d/l{l}" if l > 10 else "boo_3d"
+    if bigsys:
+        ctx.count("systems_beyond_usual_size")
+    if rng.random() < 0.3:
+        # history: the same trajectory and files analysed immediately before with ANOTHER degree (a scan over l), or another mask
+        lo_ = l + 1 if l < 12 else l - 1
+        if rng.random() < 0.7:
+            okp, bp = ctx.call(key + "/prior_object", boo_3d, snaps, lo_, fn, fw, ppp, Nmax, data=info)
+        else:
+            okp, bp = ctx.call(key + "/prior_object", boo_3d, snaps, l, fn, fw, 1 - ppp if (1 - ppp).any() else ppp, Nmax, data=info)
+        if okp:
+            ctx.call(key + "/prior_object", bp.ql_Ql, False, None, data=info)
+        ctx.count("prior_object_one_argument_changed")
     ok, b = ctx.call(key, boo_3d, snaps, l, fn, fw, ppp, Nmax, data=info)
     ctx.case(f"{nlkind}/{'weighted' if fw else 'plain'}/{cellkind}/l{'>10' if l > 10 else '<=10'}", snaps.snapshots[0].positions, lists[0], l, nontrivial=True,
              sample={"l": l, "neighbours": nlkind, "weights": bool(fw), "N": N, "T": T, "cell": cellkind, "ppp": ppp})
